@@ -55,8 +55,10 @@ func (its *Manager) GetLatestDatatype() (iface.Datatype, uint64, errors.OrdaErro
 		if err = datatype.SetMetaAndSnapshot([]byte(snapshotDoc.Meta), snapshotDoc.Snapshot); err != nil {
 			return nil, 0, err
 		}
-		datatype.ResetWired()
 	}
+	// the instance stands for a stored datatype: whatever it queued for push by being created locally
+	// (its own creation snapshot operation) must not reach the log
+	datatype.ResetWired()
 	opList, sseqList, err := its.managers.Mongo.GetOperations(its.ctx, its.datatypeDoc.DUID, lastSseq+1, constants.InfinitySseq)
 	if err != nil {
 		return nil, 0, err
